@@ -73,27 +73,29 @@ def _pop_features(h):
                             f["empty"] = [def_path(last)]
                         elif nonempty:
                             f["guard"] = ("Gt", "len", 0)
-    for st in exprs(body, "SLet"):
-        init = strip(st.get("init", {}))
-        if init.get("k") == "Binary" and init["op"] == "Eq":
-            l = strip(init["l"])
-            if l.get("k") == "Binary" and l["op"] == "BitAnd" and strip(l["l"]).get("name") == "layers":
-                f["test"] = ("BitAnd", lit_value(l["r"]), "Eq", lit_value(init["r"]))
-                f["flag"] = st["pat"].get("name")
     for a in exprs(body, "AssignOp"):
         l = strip(a["l"])
         if l.get("k") == "Field" and l["name"] in ("len", "layers"):
             f[l["name"]] = (a["op"].replace("Assign", ""), lit_value(a["r"]))
-    # which layer the flag selects
-    for i in exprs(body, "If"):
-        if local_name(i["cond"]) == f.get("flag"):
-            def layer(n):
-                for c in exprs(n, "Call"):
-                    if norm(c.get("callee", "")) == "core::option::Option::Some":
-                        return last_seg(def_path(c["args"][0]) or "")
-            f["true_is"] = layer(i["then"])
-            f["false_is"] = layer(i.get("else", {}))
-    f.pop("flag", None)
+    # which layer the low bit selects: read from the path condition of the leaves that return Some(Layer::X)
+    if S is not None:
+        for x in S.result_leaves():
+            t = strip(x.node)
+            last = strip(t["es"][-1]) if t.get("k") == "Tup" and t.get("es") else t
+            layer = None
+            for c in exprs(last, "Call"):
+                if norm(c.get("callee", "")) == "core::option::Option::Some" and c.get("args"):
+                    layer = last_seg(def_path(c["args"][0]) or "")
+            if not layer:
+                continue
+            for op, l, r, fr, certain in sem.weak_cmps(x.pc):
+                if not certain or op not in ("Eq", "Ne"):
+                    continue
+                for a_, b_ in ((l, r), (r, l)):
+                    an = strip(S.resolve(a_, fr).node)
+                    if an.get("k") == "Binary" and an["op"] == "BitAnd" and strip(an["l"]).get("name") == "layers" and lit_value(b_) is not None:
+                        f["test"] = ("BitAnd", lit_value(an["r"]), "Eq", lit_value(b_))
+                        f["true_is" if op == "Eq" else "false_is"] = layer
     return f
 
 
